@@ -549,6 +549,34 @@ pub fn build_repeat(slots: &[Slot]) -> Repeat {
     r
 }
 
+/// The initial state of a case is put together with the code under test (`Stack` / `Memory` / `Repeat`
+/// constructors). All generated initial states are within the documented limits (4096 / 10240 words, 4096 active
+/// loops): a constructor that refuses one is itself a witness, not a harness error.
+pub fn initial_state_refused(case: &VmCase) -> Option<(&'static str, String)> {
+    if let Err(e) = Stack::try_from(case.stack.clone()) {
+        return Some(("C08", format!("a stack of {} words (limit 4096) is refused: {e}", case.stack.len())));
+    }
+    if let Err(e) = Memory::try_from(case.memory.clone()) {
+        return Some(("C08", format!("a memory of {} words (limit 10240) is refused: {e}", case.memory.len())));
+    }
+    if let Some(p) = &case.parent_memory {
+        if let Err(e) = Memory::try_from(p.clone()) {
+            return Some(("C08", format!("a parent memory of {} words (limit 10240) is refused: {e}", p.len())));
+        }
+    }
+    let mut r = Repeat::new();
+    for (k, s) in case.repeat.iter().enumerate() {
+        let res = match s.up_limit {
+            Some(l) => r.repeat_to(s.idx, l),
+            None => r.repeat_from(s.idx, s.counter),
+        };
+        if let Err(e) = res {
+            return Some(("C09", format!("loop number {} of {} nested loops (limit 4096) cannot be entered: {e}", k + 1, case.repeat.len())));
+        }
+    }
+    None
+}
+
 pub fn build_vm(case: &VmCase) -> Vm {
     let mut vm = Vm::default();
     vm.stack = Stack::try_from(case.stack.clone()).expect("initial stack within bounds");
@@ -697,6 +725,10 @@ pub fn judge(case: &VmCase, rep: &mut Report, mon: &Monitor, pools: &mut Pools, 
         limit: case.limit,
     };
     let depth = if case.parent_memory.is_some() { 1 } else { 0 };
+    if let Some((property, detail)) = initial_state_refused(case) {
+        rep.violation(property, "initial-state-refused", detail, serde_json::to_value(case).unwrap());
+        return CaseOutcome::default();
+    }
 
     // Reference run first: decides whether the case is specified and affordable.
     let mut m = build_machine(case);
